@@ -250,6 +250,25 @@ def pendingFor {Op : Type} (dest : Op → Nat) (pending : List Op) (r : Nat) : L
 def setInsert {E K X : Type} [DecidableEq E] (key : E → K) (lt : K → K → Bool) (l : Local E X) (x : E) : Local E X :=
   if x ∈ l.items then l else { l with items := insertLB key lt x l.items }
 
+/-- operations of a set whose order matters: `async_insert` and `async_erase` -/
+inductive SetOp (E : Type)
+  | ins (x : E)
+  | del (x : E)
+deriving Repr, DecidableEq
+
+def SetOp.elem {E : Type} : SetOp E → E
+  | .ins x => x
+  | .del x => x
+
+/-- the two handlers: insert unless present; erase every equal element -/
+def applySetOp {E K X : Type} [DecidableEq E] (key : E → K) (lt : K → K → Bool) (l : Local E X) : SetOp E → Local E X
+  | .ins x => setInsert key lt l x
+  | .del x => { l with items := l.items.filter (fun y => y ≠ x) }
+
+/-- does `x` survive a sequence of operations, given whether it was present before? (the last operation on `x` decides) -/
+def survives {E : Type} [DecidableEq E] (x : E) (present : Bool) (ops : List (SetOp E)) : Bool :=
+  ops.foldl (fun b o => if o.elem = x then (match o with | .ins _ => true | .del _ => false) else b) present
+
 /-- `std::string::compare` order: lexicographic on unsigned bytes, shorter first -/
 def bytesLt : Bytes → Bytes → Bool
   | [], [] => false
